@@ -128,6 +128,37 @@ def envR (P : List (Name × Rat)) (names : List Name) (xs : List Rat) (t : Rat) 
 
 /-! ### the generated program, explicitly -/
 
+theorem zeroVars_of_eqs {c : Content} (hok : OkV c) : zeroVars (omKeys c.vars) (diffEqs c.rxns) = [] := by
+  have := hok.eqs
+  simp only [allVarsHaveEq, List.all_eq_true] at this
+  unfold zeroVars
+  split
+  · rfl
+  · rw [List.filter_eq_nil_iff]
+    intro v hv
+    have h1 := this v hv
+    simpa using h1
+
+theorem retNames_of_eqs {c : Content} (hok : OkV c) :
+    retNames (omKeys c.vars) (diffEqs c.rxns)
+      = ((omKeys c.vars).filter fun v => (omKeys (diffEqs c.rxns)).contains v).map dName := by
+  have := hok.eqs
+  simp only [allVarsHaveEq, List.all_eq_true] at this
+  have hf : ((omKeys c.vars).filter fun v => (omKeys (diffEqs c.rxns)).contains v) = omKeys c.vars :=
+    List.filter_eq_self.mpr this
+  rw [hf]
+  unfold retNames
+  split
+  · rename_i he
+    cases hv : omKeys c.vars with
+    | nil => rfl
+    | cons a as =>
+      have h1 := this a (by simp [hv])
+      cases hd : diffEqs c.rxns with
+      | nil => simp [hd, omKeys] at h1
+      | cons x y => simp [hd] at he
+  · rfl
+
 theorem genModel_ok {c : Content} (hok : OkV c) {L : Lang} (hL : L ≠ .jl) {cache : Cache}
     (hcc : createCache c = .ok cache) (hinit : omKeys cache.init = omKeys c.vars) :
     genModel [] c L [] = .ok
@@ -144,7 +175,8 @@ theorem genModel_ok {c : Content} (hok : OkV c) {L : Lang} (hL : L ≠ .jl) {cac
         retLen := if (templateOf L).sizedRet then some (omKeys c.vars).length else none } := by
   unfold genModel
   simp only [hcc, bind, Except.bind, popAll, emitBody_nil hok, pure, Except.pure, hinit, List.map_map,
-    Function.comp_def, target_id hL, List.isEmpty_nil, Bool.not_true, Bool.false_and, Bool.false_eq_true, if_false]
+    Function.comp_def, target_id hL, List.isEmpty_nil, Bool.not_true, Bool.false_and, Bool.false_eq_true, if_false,
+    zeroVars_of_eqs hok, retNames_of_eqs hok, List.map_nil, List.append_nil]
 
 theorem zipBind_ok {names : List Name} {xs : List Rat} (h : names.length = xs.length) (env : Env) :
     zipBind names xs env = .ok ((names.zip xs).reverse ++ env) := by
